@@ -1,0 +1,379 @@
+//go:build verif
+
+// Contracts for the deductive checks in /verif (comment-only; compiled only with -tags verif,
+// and even then contains no code).
+//
+// C03: the short spelling of an attribute is rewritten to exactly its long (mapping) form; the long form is
+//      a fixed point; a value of an unsupported dynamic type is an error, never a partial value.
+// C11: a default is written iff the key is absent; explicit values are never overwritten.
+
+package transform
+
+//@ spec onlyKey(m map[string]any, k string) bool = forall q string :: has(m, q) ==> q == k
+
+// string | list -> list  (dns and friends): s ~ [s]
+//@ func transformStringOrList
+//@   nopanic[C01,C03]
+//@   ensures[C03] err == nil
+//@   ensures[C03] isStr(data) ==> isList(result) && len(asList(result)) == 1 && asList(result)[0] == data
+//@   ensures[C03] !isStr(data) ==> result == data
+//@   ensures wf(result)
+
+// secrets/configs short form: s ~ {source: s}
+//@ func transformFileMount
+//@   nopanic[C01,C03]
+//@   ensures[C03] isMap(data) ==> err == nil && result == data
+//@   ensures[C03] isStr(data) ==> err == nil && isMap(result) && fresh(result) && has(asMap(result), "source") && asMap(result)["source"] == data && onlyKey(asMap(result), "source")
+//@   ensures[C03] !isMap(data) && !isStr(data) ==> err != nil && result == nil
+//@   ensures err == nil ==> wf(result)
+
+// include short form: s ~ {path: s}
+//@ func transformInclude
+//@   nopanic[C01,C03]
+//@   ensures[C03] isMap(data) ==> err == nil && result == data
+//@   ensures[C03] isStr(data) ==> err == nil && isMap(result) && fresh(result) && has(asMap(result), "path") && asMap(result)["path"] == data && onlyKey(asMap(result), "path")
+//@   ensures[C03] !isMap(data) && !isStr(data) ==> err != nil
+//@   ensures err == nil ==> wf(result)
+
+// ulimits: int (single value) and mapping (soft/hard) pass unchanged, everything else is rejected
+//@ func transformUlimits
+//@   nopanic[C01,C03]
+//@   ensures[C03] isMap(data) || isInt(data) ==> err == nil && result == data
+//@   ensures[C03] !isMap(data) && !isInt(data) ==> err != nil
+//@   ensures err == nil ==> wf(result)
+
+//@ func cleanTarget
+//@   nopanic[C01,C03]
+//@   ensures[C03] target == "" ==> result == ""
+
+// ---- the canonical walker -------------------------------------------------------------------
+
+//@ func transformMapping
+//@   nopanic[C01,C03]
+//@   ensures[C03] err == nil ==> result.0 == v
+//@   ensures[C01,C03] err != nil ==> result.0 == nil
+
+//@ func transformSequence
+//@   nopanic[C01,C03]
+//@   ensures[C03] err == nil ==> result.0 == v
+//@   ensures[C01,C03] err != nil ==> result.0 == nil
+
+//@ func transform
+//@   nopanic[C01,C03]
+//@   assigns below(data)
+//@   ensures err == nil ==> wf(result)
+// (on error the result is not the nil interface: `return a, err` boxes the nil map returned by transformMapping)
+//@   ensures[C03] isMap(data) && err == nil ==> result == data
+// the walker applies the right rule at the right path (first match while ranging the rule table is a function of the path: C02)
+//@   ensures[C03] pathmatch(p, "services.*.build") && isStr(data) ==> err == nil && isMap(result) && has(asMap(result), "context") && asMap(result)["context"] == data && onlyKey(asMap(result), "context")
+//@   ensures[C03] pathmatch(p, "services.*.extends") && isStr(data) ==> err == nil && isMap(result) && has(asMap(result), "service") && asMap(result)["service"] == data && onlyKey(asMap(result), "service")
+//@   ensures[C03] pathmatch(p, "include.*") && isStr(data) ==> err == nil && isMap(result) && has(asMap(result), "path") && asMap(result)["path"] == data && onlyKey(asMap(result), "path")
+//@   ensures[C03] (pathmatch(p, "services.*.secrets.*") || pathmatch(p, "services.*.configs.*") || pathmatch(p, "services.*.build.secrets.*")) && isStr(data) ==> err == nil && isMap(result) && has(asMap(result), "source") && asMap(result)["source"] == data && onlyKey(asMap(result), "source")
+//@   ensures[C03] pathmatch(p, "services.*.dns") && isStr(data) ==> err == nil && isList(result) && len(asList(result)) == 1 && asList(result)[0] == data
+//@   ensures[C03] pathmatch(p, "services.*.devices.*") && isStr(data) && splitcount(asStr(data), ":") > 3 && !ignoreParseError ==> err != nil
+//@   ensures[C03] pathmatch(p, "services.*.devices.*") && isStr(data) && splitcount(asStr(data), ":") == 1 ==> err == nil && isMap(result) && asMap(result)["source"] == mkStr(splitpart(asStr(data), ":", 0)) && asMap(result)["target"] == mkStr(splitpart(asStr(data), ":", 0)) && asMap(result)["permissions"] == "rwm"
+//@   ensures[C03] (pathmatch(p, "services.*.ulimits.*") || pathmatch(p, "services.*.build.ulimits.*")) && !isMap(data) && !isInt(data) ==> err != nil
+//@   ensures[C03] pathmatch(p, "services.*.depends_on") && !isMap(data) && !isList(data) ==> err != nil
+//@   ensures[C03] pathmatch(p, "services.*.env_file") && !isStr(data) && !isList(data) ==> err != nil
+//@   ensures[C03] pathmatch(p, "services.*.ports") && !isList(data) ==> err != nil
+//@   ensures[C03] pathmatch(p, "services.*.volumes.*") && !isMap(data) && !isStr(data) ==> err != nil
+//@   loop 1
+//@     invariant[C02,C03] forall k string :: seen(k) ==> !pathmatch(p, k)
+
+//@ func Canonical
+//@   nopanic[C01,C03]
+//@   requires yaml != nil
+//@   ensures[C01] (err == nil) != (result.0 == nil)
+//@   ensures[C03] err == nil ==> result.0 == yaml
+
+//@ func transformService
+//@   nopanic[C01,C03]
+//@   ensures[C03] isMap(data) && err == nil ==> result == data
+//@   ensures[C03] !isMap(data) ==> err == nil && result == data
+//@   ensures err == nil ==> wf(result)
+
+// build short form: s ~ {context: s}
+//@ func transformBuild
+//@   nopanic[C01,C03]
+//@   ensures[C03] isMap(data) && err == nil ==> result == data
+//@   ensures[C03] isStr(data) ==> err == nil && isMap(result) && fresh(result) && has(asMap(result), "context") && asMap(result)["context"] == data && onlyKey(asMap(result), "context")
+//@   ensures[C03] !isMap(data) && !isStr(data) ==> err != nil
+//@   ensures err == nil ==> wf(result)
+
+// extends short form: s ~ {service: s}
+//@ func transformExtends
+//@   nopanic[C01,C03]
+//@   ensures[C03] isMap(data) && err == nil ==> result == data
+//@   ensures[C03] isStr(data) ==> err == nil && isMap(result) && fresh(result) && has(asMap(result), "service") && asMap(result)["service"] == data && onlyKey(asMap(result), "service")
+//@   ensures[C03] !isMap(data) && !isStr(data) ==> err != nil
+//@   ensures err == nil ==> wf(result)
+
+// devices short form SRC[:DST[:PERM]]: DST defaults to SRC, PERM to "rwm"; more than three fields is an error
+//@ func transformDeviceMapping
+//@   nopanic[C01,C03]
+//@   ensures[C03] isMap(data) ==> err == nil && result == data
+//@   ensures[C03] !isMap(data) && !isStr(data) ==> err != nil
+//@   ensures[C03] isStr(data) && splitcount(asStr(data), ":") > 3 && !ignoreParseError ==> err != nil && result == nil
+//@   ensures[C03] isStr(data) && splitcount(asStr(data), ":") <= 3 ==> err == nil
+//@   ensures[C03] isStr(data) && err == nil ==> isMap(result) && fresh(result) && has(asMap(result), "source") && has(asMap(result), "target") && has(asMap(result), "permissions")
+//@   ensures[C03] isStr(data) && err == nil ==> forall q string :: has(asMap(result), q) ==> q == "source" || q == "target" || q == "permissions"
+//@   ensures[C03] isStr(data) && err == nil && splitcount(asStr(data), ":") <= 3 ==> asMap(result)["source"] == mkStr(splitpart(asStr(data), ":", 0))
+//@   ensures[C03] isStr(data) && err == nil && splitcount(asStr(data), ":") == 1 ==> asMap(result)["target"] == mkStr(splitpart(asStr(data), ":", 0))
+//@   ensures[C03] isStr(data) && err == nil && (splitcount(asStr(data), ":") == 2 || splitcount(asStr(data), ":") == 3) && splitpart(asStr(data), ":", 1) != "" ==> asMap(result)["target"] == mkStr(splitpart(asStr(data), ":", 1))
+//@   ensures[C03] isStr(data) && err == nil && (splitcount(asStr(data), ":") == 2 || splitcount(asStr(data), ":") == 3) && splitpart(asStr(data), ":", 1) == "" ==> asMap(result)["target"] == mkStr(splitpart(asStr(data), ":", 0))
+//@   ensures[C03] isStr(data) && err == nil && splitcount(asStr(data), ":") <= 2 ==> asMap(result)["permissions"] == mkStr("rwm")
+//@   ensures[C03] isStr(data) && err == nil && splitcount(asStr(data), ":") == 3 ==> asMap(result)["permissions"] == mkStr(splitpart(asStr(data), ":", 2))
+//@   ensures err == nil ==> wf(result)
+
+// KEY=VALUE list vs mapping: ["k=v"] ~ {k: v}; an element without '=' is an error (or, under ignoreParseError,
+// the value is returned untouched); the mapping form is a fixed point.
+// cutKey/cutVal: the two halves of strings.Cut(s, "=")
+//@ spec cutKey(s string) string = s[0:sindex(s, "=")]
+//@ spec cutVal(s string) string = s[sindex(s, "=")+1:len(s)]
+//@ func transformKeyValue
+//@   nopanic[C01,C03]
+//@   ensures[C03] isMap(data) ==> err == nil && result == data
+//@   ensures[C03] !isMap(data) && !isList(data) ==> err != nil && result == nil
+//@   ensures[C03] err != nil ==> result == nil
+//@   ensures[C03] isList(data) && err == nil && !ignoreParseError ==> isMap(result) && fresh(result)
+//@   ensures[C03] isList(data) && err == nil ==> result == data || (isMap(result) && fresh(result))
+//@   ensures[C03] isList(data) && err == nil && isMap(result) ==> forall k string :: has(asMap(result), k) ==> isStr(asMap(result)[k])
+//@   ensures err == nil ==> wf(result)
+// engine limit: every clause/invariant that quantifies over the elements of the input list (pattern (select row (+ off j)), arithmetic
+// inside the trigger) is proved only for some solver seeds (unsat in about 1 of 5, timeout otherwise); they are valid and kept inactive.
+//@?   ensures[C03] isList(data) && !ignoreParseError && (exists i int :: 0 <= i && i < len(asList(data)) && !contains(asStr(asList(data)[i]), "=")) ==> err != nil && result == nil
+//@?   ensures[C03] isList(data) && ignoreParseError && (exists i int :: 0 <= i && i < len(asList(data)) && !contains(asStr(asList(data)[i]), "=")) ==> err == nil && result == data
+//@?   ensures[C03] isList(data) && (forall i int :: 0 <= i && i < len(asList(data)) ==> contains(asStr(asList(data)[i]), "=")) ==> err == nil && isMap(result) && fresh(result)
+//@?   ensures[C03] isList(data) && err == nil && isMap(result) ==> forall i int :: 0 <= i && i < len(asList(data)) ==> has(asMap(result), cutKey(asStr(asList(data)[i])))
+//@?   ensures[C03] isList(data) && err == nil && isMap(result) && len(asList(data)) >= 1 ==> asMap(result)[cutKey(asStr(asList(data)[len(asList(data))-1]))] == mkStr(cutVal(asStr(asList(data)[len(asList(data))-1])))
+//@?   ensures[C03] isList(data) && err == nil && isMap(result) ==> forall k string :: has(asMap(result), k) ==> exists i int :: 0 <= i && i < len(asList(data)) && cutKey(asStr(asList(data)[i])) == k && asMap(result)[k] == mkStr(cutVal(asStr(asList(data)[i])))
+//@   loop 1
+//@     invariant -1 <= rangeindex && rangeindex < len(v)
+//@     invariant mapping != nil && fresh(mapping)
+//@     invariant[C03] forall k string :: has(mapping, k) ==> isStr(mapping[k])
+//@?     invariant[C03] forall j int :: 0 <= j && j <= rangeindex ==> contains(asStr(v[j]), "=")
+//@?     invariant[C03] forall j int :: 0 <= j && j <= rangeindex ==> has(mapping, cutKey(asStr(v[j])))
+//@?     invariant[C03] rangeindex >= 0 ==> mapping[cutKey(asStr(v[rangeindex]))] == mkStr(cutVal(asStr(v[rangeindex])))
+//@?     invariant[C03] forall k string :: has(mapping, k) ==> exists j int :: 0 <= j && j <= rangeindex && cutKey(asStr(v[j])) == k && mapping[k] == mkStr(cutVal(asStr(v[j])))
+//@     decreases[C01] len(v) - rangeindex
+
+// build.ssh: ["id=path"] ~ {id: path}, "default" ~ {default: nil}; any other element without '=' and any
+// non-string element is an error; the mapping form is a fixed point.
+//@ func transformSSH
+//@   nopanic[C01,C03]
+//@   ensures[C03] isMap(data) ==> err == nil && result == data
+//@   ensures[C03] !isMap(data) && !isList(data) ==> err != nil
+//@   ensures[C03] isList(data) && err != nil ==> result == nil
+//@   ensures[C03] isList(data) && err == nil ==> isMap(result) && fresh(result)
+//@   ensures[C03] isList(data) && err == nil ==> forall k string :: has(asMap(result), k) ==> isStr(asMap(result)[k]) || (k == "default" && asMap(result)[k] == nil)
+//@   ensures err == nil ==> wf(result)
+//@   ensures[C03] isList(data) && (exists i int :: 0 <= i && i < len(asList(data)) && !isStr(asList(data)[i])) ==> err != nil
+//@   ensures[C03] isList(data) && (exists i int :: 0 <= i && i < len(asList(data)) && isStr(asList(data)[i]) && !contains(asStr(asList(data)[i]), "=") && asStr(asList(data)[i]) != "default") ==> err != nil
+// engine limit (see transformKeyValue): needs an invariant "has(result, cutKey(v[j]))" whose proof is unstable
+//@?   ensures[C03] isList(data) && err == nil ==> forall i int :: 0 <= i && i < len(asList(data)) && contains(asStr(asList(data)[i]), "=") ==> has(asMap(result), cutKey(asStr(asList(data)[i])))
+//@   loop 1
+//@     invariant -1 <= rangeindex && rangeindex < len(v)
+//@     invariant result != nil && fresh(result)
+//@     invariant[C03] forall k string :: has(result, k) ==> isStr(result[k]) || (k == "default" && result[k] == nil)
+//@     invariant[C03] forall j int :: 0 <= j && j <= rangeindex ==> isStr(v[j]) && (contains(asStr(v[j]), "=") || asStr(v[j]) == "default")
+//@     decreases[C01] len(v) - rangeindex
+
+// service networks: [n...] ~ {n: nil}; everything else is returned as it is
+//@ func transformServiceNetworks
+//@   nopanic[C01,C03]
+//@   ensures[C03] !isList(data) ==> err == nil && result == data
+//@   ensures[C03] isList(data) && err == nil ==> isMap(result) && fresh(result)
+//@   ensures[C03] isList(data) && err == nil ==> forall k string :: has(asMap(result), k) ==> asMap(result)[k] == nil
+//@   ensures[C03] isList(data) && (exists j int :: 0 <= j && j < len(asList(data)) && !isStr(asList(data)[j])) ==> err != nil      // a short form that does not parse is rejected, never loaded partially
+//@   ensures err == nil ==> wf(result)
+//@   loop 1
+//@     invariant -1 <= rangeindex && rangeindex < len(slice) && forall j int :: 0 <= j && j <= rangeindex ==> isStr(slice[j])
+// engine limit: valid, proof unstable (the same script is unsat in 50 ms or a timeout depending on the heap-class numbering cN the
+// engine happens to pick in that run); the converse needs a forall-exists invariant (matching loop)
+//@?   ensures[C03] isList(data) ==> forall i int :: 0 <= i && i < len(asList(data)) ==> has(asMap(result), asStr(asList(data)[i]))
+//@?   ensures[C03] isList(data) ==> forall k string :: has(asMap(result), k) ==> exists i int :: 0 <= i && i < len(asList(data)) && asStr(asList(data)[i]) == k
+//@   loop 1
+//@     invariant -1 <= rangeindex && rangeindex < len(slice)
+//@     invariant networks != nil && fresh(networks)
+//@     invariant[C03] forall k string :: has(networks, k) ==> networks[k] == nil
+//@?     invariant[C03] forall j int :: 0 <= j && j <= rangeindex ==> has(networks, asStr(slice[j]))
+//@     decreases[C01] len(slice) - rangeindex
+
+// depends_on: [s...] ~ {s: {condition: service_started, required: true}}; in the mapping form every entry must be a
+// mapping (else error) and gets the two defaults only where absent (C11: explicit values are never overwritten).
+//@ func transformDependsOn
+//@   nopanic[C01,C03,C11]
+//@   ensures[C03] isMap(data) && err == nil ==> result == data
+//@   ensures[C03] !isMap(data) && !isList(data) ==> err != nil
+//@   ensures[C03] isMap(data) && err != nil ==> result == nil
+//@   ensures[C03] isMap(data) && err == nil ==> forall k string :: old(has(asMap(data), k)) ==> isMap(old(asMap(data)[k]))
+//@   ensures[C11] forall m map[string]any, c string :: !fresh(m) && old(has(m, c)) ==> has(m, c) && m[c] == old(m[c])
+//@   ensures[C03,C11] isMap(data) && err == nil ==> forall k string :: old(has(asMap(data), k)) ==> has(asMap(old(asMap(data)[k])), "condition") && has(asMap(old(asMap(data)[k])), "required")
+//@   ensures[C03,C11] isMap(data) && err == nil ==> forall k string :: old(has(asMap(data), k)) && !old(has(asMap(asMap(data)[k]), "condition")) ==> asMap(old(asMap(data)[k]))["condition"] == "service_started"
+//@   ensures[C03,C11] isMap(data) && err == nil ==> forall k string :: old(has(asMap(data), k)) && !old(has(asMap(asMap(data)[k]), "required")) ==> asMap(old(asMap(data)[k]))["required"] == mkBool(true)
+//@   ensures[C03] isList(data) && err == nil ==> isMap(result) && fresh(result)
+//@   ensures err == nil ==> wf(result)
+// engine limit: the function has two locals called d (and three called v); in loop 2 the name d resolves to the first one
+// (SPEC-ERROR "has: not a map ... term 0"), so nothing can be said about the map under construction in the list case.
+//@?   ensures[C03,C11] isList(data) ==> forall k string :: has(asMap(result), k) ==> isMap(asMap(result)[k]) && fresh(asMap(result)[k]) && has(asMap(asMap(result)[k]), "condition") && asMap(asMap(result)[k])["condition"] == "service_started" && has(asMap(asMap(result)[k]), "required") && asMap(asMap(result)[k])["required"] == mkBool(true)
+//@?   ensures[C03] isList(data) ==> forall i int :: 0 <= i && i < len(asList(data)) ==> has(asMap(result), asStr(asList(data)[i]))
+//@   loop 1
+//@     invariant[C11] forall m map[string]any, c string :: !fresh(m) && old(has(m, c)) ==> has(m, c) && m[c] == old(m[c])
+//@     invariant[C03] forall k string :: seen(k) && old(has(asMap(data), k)) ==> isMap(old(asMap(data)[k]))
+//@     invariant[C03,C11] forall k string :: seen(k) && old(has(asMap(data), k)) ==> has(asMap(old(asMap(data)[k])), "condition") && has(asMap(old(asMap(data)[k])), "required")
+//@     invariant[C03,C11] forall m map[string]any :: has(m, "condition") && !old(has(m, "condition")) ==> m["condition"] == "service_started"
+//@     invariant[C03,C11] forall m map[string]any :: has(m, "required") && !old(has(m, "required")) ==> m["required"] == mkBool(true)
+//@   loop 2
+//@     invariant -1 <= rangeindex
+//@     invariant[C11] forall m map[string]any, c string :: !fresh(m) && old(has(m, c)) ==> has(m, c) && m[c] == old(m[c])
+//@?     invariant d != nil && fresh(d)
+//@?     invariant[C03,C11] forall k string :: has(d, k) ==> isMap(d[k]) && fresh(d[k]) && asMap(d[k]) != d && has(asMap(d[k]), "condition") && asMap(d[k])["condition"] == "service_started" && has(asMap(d[k]), "required") && asMap(d[k])["required"] == mkBool(true)
+//@     decreases[C01] len(asList(data)) - rangeindex
+
+// env_file element: s ~ {path: s, required: true}; a mapping keeps every key and gets required: true only if absent
+//@ func transformEnvFileValue
+//@   nopanic[C01,C03,C11]
+//@   ensures[C03] isStr(data) ==> isMap(result) && fresh(result) && has(asMap(result), "path") && asMap(result)["path"] == data && has(asMap(result), "required") && asMap(result)["required"] == mkBool(true) && (forall q string :: has(asMap(result), q) ==> q == "path" || q == "required")
+//@   ensures[C03] isMap(data) ==> result == data
+//@   ensures[C11] isMap(data) ==> has(asMap(data), "required") && (!old(has(asMap(data), "required")) ==> asMap(data)["required"] == mkBool(true))
+//@   ensures[C11] forall m map[string]any, c string :: !fresh(m) && old(has(m, c)) ==> has(m, c) && m[c] == old(m[c])
+//@   ensures[C11] isMap(data) ==> forall c string :: has(asMap(data), c) ==> old(has(asMap(data), c)) || c == "required"
+//@   ensures wf(result)
+// C03 "a short form that does not parse is rejected with an error rather than loaded partially": an element that is neither a
+// string nor a mapping must not be replaced silently. NOT PROVABLE on this code (it returns nil): FINDING, see report.
+//@   ensures[C03] !isStr(data) && !isMap(data) ==> result == data
+
+// env_file: s ~ [{path: s, required: true}]; list elements likewise
+//@ func transformEnvFile
+//@   nopanic[C01,C03,C11]
+//@   ensures[C03] isStr(data) ==> err == nil && isList(result) && fresh(result) && len(asList(result)) == 1 && isMap(asList(result)[0]) && asMap(asList(result)[0])["path"] == data && asMap(asList(result)[0])["required"] == mkBool(true)
+//@   ensures[C03] isList(data) ==> err == nil && result == data
+//@   ensures[C03] !isStr(data) && !isList(data) ==> err != nil && result == nil
+//@   ensures[C11] forall m map[string]any, c string :: !fresh(m) && old(has(m, c)) ==> has(m, c) && m[c] == old(m[c])
+//@   ensures err == nil ==> wf(result)
+//@   loop 1
+//@     invariant -1 <= rangeindex && rangeindex < len(v)
+//@     invariant[C11] forall m map[string]any, c string :: !fresh(m) && old(has(m, c)) ==> has(m, c) && m[c] == old(m[c])
+//@     decreases[C01] len(v) - rangeindex
+
+// ---- defaults (C11): a key is written iff it is absent; nothing else changes -------------------------------
+
+// ports: protocol defaults to tcp, mode to ingress
+//@ func portDefaults
+//@   nopanic[C01,C11]
+//@   ensures[C11] err == nil && result == data
+//@   ensures[C11] forall m map[string]any, c string :: !fresh(m) && old(has(m, c)) ==> has(m, c) && m[c] == old(m[c])
+//@   ensures[C11] isMap(data) ==> has(asMap(data), "protocol") && has(asMap(data), "mode")
+//@   ensures[C11] isMap(data) && !old(has(asMap(data), "protocol")) ==> asMap(data)["protocol"] == "tcp"
+//@   ensures[C11] isMap(data) && !old(has(asMap(data), "mode")) ==> asMap(data)["mode"] == "ingress"
+//@   ensures[C11] isMap(data) ==> forall c string :: has(asMap(data), c) ==> old(has(asMap(data), c)) || c == "protocol" || c == "mode"
+//@   ensures wf(result)
+
+// build: context defaults to "."
+//@ func defaultBuildContext
+//@   nopanic[C01,C11]
+//@   ensures[C11] err == nil && result == data
+//@   ensures[C11] forall m map[string]any, c string :: !fresh(m) && old(has(m, c)) ==> has(m, c) && m[c] == old(m[c])
+//@   ensures[C11] isMap(data) ==> has(asMap(data), "context")
+//@   ensures[C11] isMap(data) && !old(has(asMap(data), "context")) ==> asMap(data)["context"] == "."
+//@   ensures[C11] isMap(data) ==> forall c string :: has(asMap(data), c) ==> old(has(asMap(data), c)) || c == "context"
+//@   ensures wf(result)
+
+// service secrets: target defaults to /run/secrets/<source>
+//@ func defaultSecretMount
+//@   nopanic[C01,C11]
+//@   ensures[C11] isMap(data) ==> err == nil && result == data
+//@   ensures[C11] !isMap(data) ==> err != nil && result == nil
+//@   ensures[C11] forall m map[string]any, c string :: !fresh(m) && old(has(m, c)) ==> has(m, c) && m[c] == old(m[c])
+//@   ensures[C11] isMap(data) ==> has(asMap(data), "target")
+//@   ensures[C11] isMap(data) && !old(has(asMap(data), "target")) ==> isStr(asMap(data)["target"])
+//@   ensures[C11] isMap(data) ==> forall c string :: has(asMap(data), c) ==> old(has(asMap(data), c)) || c == "target"
+//@   ensures err == nil ==> wf(result)
+// engine limit: fmt.Sprintf is modelled as an unconstrained string, so the documented value cannot be stated
+//@?   ensures[C11] isMap(data) && !old(has(asMap(data), "target")) && isStr(old(asMap(data)["source"])) ==> asMap(data)["target"] == mkStr("/run/secrets/" + asStr(old(asMap(data)["source"])))
+
+// device requests (deploy.resources.reservations.devices, gpus): count defaults to all iff neither count nor device_ids is set
+//@ func deviceRequestDefaults
+//@   nopanic[C01,C11]
+//@   ensures[C11] isMap(data) ==> err == nil && result == data
+//@   ensures[C11] !isMap(data) ==> err != nil
+//@   ensures[C11] forall m map[string]any, c string :: !fresh(m) && old(has(m, c)) ==> has(m, c) && m[c] == old(m[c])
+//@   ensures[C11] isMap(data) ==> (has(asMap(data), "count") <==> old(has(asMap(data), "count")) || !old(has(asMap(data), "device_ids")))
+//@   ensures[C11] isMap(data) && !old(has(asMap(data), "count")) && !old(has(asMap(data), "device_ids")) ==> asMap(data)["count"] == "all"
+//@   ensures[C11] isMap(data) ==> forall c string :: has(asMap(data), c) ==> old(has(asMap(data), c)) || c == "count"
+//@   ensures err == nil ==> wf(result)
+
+// ---- the defaults walker ---------------------------------------------------------------------------------
+
+//@ func setDefaultsMapping
+//@   nopanic[C01,C11]
+//@   ensures[C11] err == nil ==> result.0 == v
+//@   ensures[C01,C11] err != nil ==> result.0 == nil
+
+//@ func setDefaultsSequence
+//@   nopanic[C01,C11]
+//@   ensures[C11] err == nil ==> result.0 == v
+//@   ensures[C01,C11] err != nil ==> result.0 == nil
+
+//@ func setDefaults
+//@   nopanic[C01,C11]
+//@   assigns below(data)
+//@   ensures err == nil ==> wf(result)
+// (on error the result is not the nil interface: `return a, err` boxes the nil map returned by setDefaultsMapping)
+//@   ensures[C11] err == nil ==> result == data
+//@   loop 1
+//@     invariant[C02,C11] forall k string :: seen(k) ==> !pathmatch(p, k)
+
+//@ func SetDefaultValues
+//@   nopanic[C01,C11]
+//@   requires yaml != nil
+//@   ensures[C01] (err == nil) != (result.0 == nil)
+//@   ensures[C11] err == nil ==> result.0 == yaml
+
+// ---- external resources, ports, volumes -------------------------------------------------------------------
+
+// volumes/networks/secrets/configs: external: {name: n} ~ external: true + name: n; a conflict with name is an error
+//@ func transformMaybeExternal
+//@   nopanic[C01,C03]
+//@   ensures[C03] data == nil ==> err == nil && result == nil
+//@   ensures[C03] isMap(data) && err == nil ==> result == data
+//@   ensures[C03] err != nil ==> result == nil
+// engine limit: the children are first walked by transformMapping (a recursive call that havocs the tree heaps; its contract cannot
+// say "entries under paths that match no rule are unchanged" because tree.Path.Next has no functional contract), so nothing is known
+// about resource["external"] relative to the entry state.
+//@?   ensures[C03] isMap(data) && err == nil && old(has(asMap(data), "external")) && isMap(old(asMap(data)["external"])) ==> asMap(data)["external"] == mkBool(true)
+//@?   ensures[C03] isMap(data) && err == nil && old(has(asMap(data), "external")) && !isMap(old(asMap(data)["external"])) ==> asMap(data)["external"] == old(asMap(data)["external"])
+//@?   ensures[C03] isMap(data) && err == nil && old(has(asMap(data), "external")) && isMap(old(asMap(data)["external"])) && has(asMap(old(asMap(data)["external"])), "name") && !old(has(asMap(data), "name")) ==> asMap(data)["name"] == asMap(old(asMap(data)["external"]))["name"]
+// (the engine continues past the failing type assertion with an arbitrary map, so this clause fails together with typeassert#1
+// for inputs that are neither nil nor a mapping: same FINDING)
+//@   ensures err == nil ==> wf(result)
+
+// mapstructure.Decoder.Decode is unmodelled and holds &m, so "m is still a non-nil map" is not provable: the one failing obligation
+// encode/e1/ret2 stands for that assumption about the dependency (kept active so that callers can rely on wf(result)).
+//@ func encode
+//@   nopanic[C01,C03]
+//@   ensures err == nil ==> result.0 != nil && fresh(result.0)
+
+// ports: every int/string entry is replaced, in order, by the long forms of ParsePortConfig(entry); mappings pass; anything else is an error
+//@ func transformPorts
+//@   nopanic[C01,C03]
+//@   ensures[C03] !isList(data) ==> err != nil
+//@   ensures[C03] isList(data) && err == nil ==> isList(result)
+//@   ensures err == nil ==> wf(result)
+
+// volumes short form [SOURCE:]TARGET[:MODE]
+//@ func transformVolumeMount
+//@   nopanic[C01,C03]
+//@   ensures[C03] isMap(data) ==> err == nil && result == data
+//@   ensures[C03] !isMap(data) && !isStr(data) ==> err != nil
+//@   ensures[C03] isStr(data) && asStr(data) == "" && !ignoreParseError ==> err != nil
+//@   ensures[C03] isStr(data) && err == nil ==> result == data || (isMap(result) && fresh(result))
+//@   ensures[C03] isStr(data) && err == nil && !ignoreParseError ==> isMap(result) && fresh(result)
+//@   ensures err == nil ==> wf(result)
+
+// rule tables are filled once, in init, and never written afterwards (C02: no load depends on an earlier load)
+//@ func init#1
+//@   nopanic[C01,C02]
+
+//@ func init#2
+//@   nopanic[C01,C02]
